@@ -881,6 +881,49 @@ class RecaseComponent(Component):
         return rep
 
 
-COMPONENTS = {c.name: c for c in [SimComponent(), IcaseComponent(), BagComponent(), RegqComponent(),
+class HwloadComponent(Component):
+    """hw_loading.read_processor on a YAML text: processor + instruction set in one go"""
+    name = "hwload"
+
+    def make(self, rng, params):
+        import implrun
+        for _ in range(30):
+            d = gen.valid_desc(rng, params.get("nmax", 5))
+            tag, p = implrun.load_desc(copy.deepcopy(d))
+            if tag != "ok" and rng.random() < 0.8:
+                continue
+            caps = implrun.run_abilities(p) if tag == "ok" else ["ALU"]
+            spec = gen.rand_isa(rng, caps, defect=0.1)
+            if len({m for m, _ in spec}) != len(spec):
+                continue                                   # a YAML mapping cannot repeat a key
+            return {"desc": d, "isa": spec}
+        return None
+
+    def run(self, case):
+        import implrun
+        import io
+        import yaml
+        hl = implrun.M("hw_loading")
+        text = yaml.safe_dump({"microarch": case["desc"], "ISA": {k: v for k, v in case["isa"]}}, sort_keys=False)
+        try:
+            hd = implrun.with_timeout(hl.read_processor, io.StringIO(text))
+            out = [Sym("ok"), implrun.enc_proc(hd.processor), [[k, v] for k, v in hd.isa.items()]]
+        except Exception as e:  # noqa: BLE001
+            cls, f, msg = implrun.exc_info(e)
+            out = [Sym("err"), [Sym(cls)], msg]
+        return [implrun.desc_to_sx(case["desc"]), case["isa"]], out
+
+    def judge(self, case, impl, res):
+        m = jsonable(res["model"][0])
+        i = jsonable(impl)
+        if str(i[0]) == "ok":
+            agree = str(m[0]) == "ok" and canon_proc(m[1]) == canon_proc(i[1]) and sorted(m[2]) == sorted(i[2])
+        else:
+            agree = str(m[0]) == "err" and m[1][0] == i[1][0]
+        return std_report(case, agree, m, i, {}, tags=[f"res:{i[0]}" + ("" if str(i[0]) == "ok" else ":" + str(i[1][0]))],
+                          nontrivial=str(i[0]) == "ok" and len(case["isa"]) >= 2)
+
+
+COMPONENTS = {c.name: c for c in [HwloadComponent(), SimComponent(), IcaseComponent(), BagComponent(), RegqComponent(),
                                   ParseComponent(), IsaComponent(), AbilitiesComponent(), LoaderComponent(),
                                   MkprocComponent(), PipelineComponent(), RecaseComponent()]}
